@@ -26,16 +26,60 @@ META = {
 }
 
 
+class StubGap(Exception):
+    """the code under test used a part of numpy's array API this stand-in does not model: no verdict"""
+
+
+class Mean:
+    """exact mean of integer draws as the pair (total, n); compared by cross-multiplication (integers only)"""
+
+    def __init__(self, total, n):
+        self.total, self.n = total, n
+
+
+def _cmp(x, other, op):
+    if isinstance(other, Mean):
+        x, other = x * other.n, other.total
+    return {'gt': x > other, 'ge': x >= other, 'lt': x < other, 'le': x <= other}[op]
+
+
 class Arr(list):
-    """the slice of numpy's array API the delay model uses: elementwise >, boolean-mask indexing, len"""
+    """the slice of numpy's array API the delay model uses: elementwise comparisons, boolean-mask indexing, len,
+    mean/sum/min/max; anything else is a StubGap (harness error, never a verdict)"""
 
     def __gt__(self, other):
-        return Arr([x > other for x in self])
+        return Arr([_cmp(x, other, 'gt') for x in self])
+
+    def __ge__(self, other):
+        return Arr([_cmp(x, other, 'ge') for x in self])
+
+    def __lt__(self, other):
+        return Arr([_cmp(x, other, 'lt') for x in self])
+
+    def __le__(self, other):
+        return Arr([_cmp(x, other, 'le') for x in self])
 
     def __getitem__(self, k):
         if isinstance(k, Arr):
             return Arr([x for x, b in zip(self, k) if b])
         return list.__getitem__(self, k)
+
+    def mean(self):
+        return Mean(sum(self), len(self))
+
+    def sum(self):
+        return sum(self)
+
+    def min(self):
+        return min(self)
+
+    def max(self):
+        return max(self)
+
+    def __getattr__(self, name):
+        if name.startswith('__'):
+            raise AttributeError(name)
+        raise StubGap(f'numpy array attribute {name!r} is not modelled by the harness stand-in')
 
 
 class RNG:
@@ -119,6 +163,8 @@ def gen_tag(dist, deg, pk, r, uk, x0, x1, x2, y0, y1, y2):
     dm = DelayModel(prob, dname, DEG[deg], seed=seed)
     try:
         out = dm.generate_delay(r, 3)
+    except StubGap as ex:
+        return f'ERR:stub-gap {ex}'
     except Exception as ex:
         return f'C15/raises/{type(ex).__name__}/{dname}' + ('/runtime0' if r == 0 else '')
     dm2 = DelayModel(prob, dname, DEG[deg], seed=seed)
